@@ -709,6 +709,8 @@ func init() {
 		// a token generated for a sub-recipe that evaluates to nil (WithSecondaryError(nil, x), Wrap(nil, m), ...)
 		// is not part of the error at all: it occurs nowhere in the full plain rendering
 		full := fmt.Sprintf("%+v", errors.Formattable(o.e))
+		// ... and, judged on the constructor expression alone: the strings of the parts that are not dropped
+		live := liveStrings(o.c.R)
 		check := func(where string, e error) bool {
 			ev, _ := report.BuildSentryReport(e)
 			var b strings.Builder
@@ -730,7 +732,7 @@ func init() {
 			addDetails(e)
 			all := b.String()
 			for _, t := range o.c.STok {
-				if !strings.Contains(full, t) {
+				if !strings.Contains(full, t) && !strings.Contains(live, t) {
 					continue
 				}
 				o.evals++
@@ -3034,4 +3036,41 @@ func firstLine(s string) string {
 		return s[:i]
 	}
 	return s
+}
+
+// liveStrings: every string given to a constructor in the parts of the expression that become part of
+// the error (a sub-expression that evaluates to nil, what is attached to a nil error, and the reference of
+// Mark contribute nothing).
+func liveStrings(r *R) string {
+	var b strings.Builder
+	var walk func(r *R)
+	walk = func(r *R) {
+		if r == nil {
+			return
+		}
+		if _, isNil := specText(r); isNil {
+			return
+		}
+		for _, x := range r.S {
+			b.WriteString(x + "\x00")
+		}
+		for _, x := range r.Strs {
+			b.WriteString(x + "\x00")
+		}
+		for _, t := range r.Tags {
+			b.WriteString(t.K + "\x00" + t.V + "\x00")
+		}
+		for _, p := range r.Fmt {
+			b.WriteString(p.S + "\x00")
+			walk(p.R)
+		}
+		for i, k := range r.Kids {
+			if r.Op == "mark" && i == 1 {
+				continue
+			}
+			walk(k)
+		}
+	}
+	walk(r)
+	return b.String()
 }
